@@ -26,6 +26,7 @@ ValNames == DOMAIN Val
 \* (duplicate detection must compare whole outpoints: equal txids with different indexes are not duplicates, and a duplicate
 \* separated by a sibling output of the same transaction still is one)
 Prevouts == 0..3
+\* 4, 5: further outputs of the same transaction as 1 and 2 (only used by the bulk-input rows below)
 \* non-witness serialized size: "small", or exactly 999 999 / 1 000 000 / 1 000 001 bytes (x4 vs 4 000 000)
 SizeClasses == {"small", "lim_m1", "lim", "lim_p1"}
 CbLens == {0, 1, 2, 100, 101}          \* scriptSig length of input 1 (matters for a coinbase)
@@ -92,17 +93,28 @@ FirstViolated(ins, outs, size, cbLen) ==
 BulkCounts == {0, 1, 2, 4392, 4393, 8783, 8784, 8785}
 \* what the rule list sees: at most the first two bulk outputs matter (the second one already exceeds the total)
 Eff(o, b) == (IF b = 0 THEN <<>> ELSE IF b = 1 THEN <<"max">> ELSE <<"max", "max">>) \o o
-VARIABLES ins, outs, size, cbLen, res, bulk
-vars == <<ins, outs, size, cbLen, res, bulk>>
+\* bulk-input rows: `bulkIn` additional, pairwise distinct inputs, all of them outputs of the SAME transaction as prevouts 1 and 2,
+\* placed between the first listed input and the rest ("mid") or after them ("end"). They are neither null nor duplicates, so
+\* the rule list sees at most two of them; the counts put the total number of inputs on both sides of small thresholds an
+\* implementation might switch algorithms at (a sort-and-compare-neighbours duplicate check must order whole outpoints: with many
+\* inputs sharing a txid two equal outpoints need not end up adjacent otherwise).
+BulkInCounts == {0, 14, 15, 29, 30, 31, 32, 61, 62, 63, 200}
+EffIns(i, b) == IF b = 0 THEN i ELSE IF b = 1 THEN <<i[1], 4>> \o Tail(i) ELSE <<i[1], 4, 5>> \o Tail(i)
+VARIABLES ins, outs, size, cbLen, res, bulk, bulkIn, bulkPos
+vars == <<ins, outs, size, cbLen, res, bulk, bulkIn, bulkPos>>
 Init == /\ ins \in UNION {[1..k -> Prevouts] : k \in 0..MaxIn}
         /\ outs \in UNION {[1..k -> ValNames] : k \in 0..MaxOut}
         /\ size \in SizeClasses /\ cbLen \in CbLens
         /\ Realisable(ins, outs, size, cbLen)
         /\ bulk \in BulkCounts
         /\ (bulk > 0 => (size = "small" /\ Len(ins) = 1 /\ ins[1] = 1 /\ Len(outs) <= 1 /\ \A k \in 1..Len(outs) : outs[k] \in {"zero", "one", "wrap0", "wrap1", "max"}))
-        /\ res = Check(ins, Eff(outs, bulk), size, cbLen)
+        /\ bulkIn \in BulkInCounts /\ bulkPos \in {"mid", "end"}
+        /\ (bulkIn = 0 => bulkPos = "end")
+        /\ (bulkIn > 0 => (bulk = 0 /\ size = "small" /\ Len(ins) >= 2 /\ Len(outs) = 1 /\ outs[1] = "one"))
+        /\ res = Check(EffIns(ins, bulkIn), Eff(outs, bulk), size, cbLen)
 Next == UNCHANGED vars
-Agree == (res = "ok") <=> SpecValid(ins, Eff(outs, bulk), size, cbLen)
-ReasonIsFirstViolated == res = FirstViolated(ins, Eff(outs, bulk), size, cbLen)
-EmitRow == VFRow([ins |-> ins, outs |-> [i \in 1..Len(outs) |-> Val[outs[i]]], size |-> size, cbLen |-> cbLen, res |-> res, bulk |-> bulk])
+Agree == (res = "ok") <=> SpecValid(EffIns(ins, bulkIn), Eff(outs, bulk), size, cbLen)
+ReasonIsFirstViolated == res = FirstViolated(EffIns(ins, bulkIn), Eff(outs, bulk), size, cbLen)
+EmitRow == VFRow([ins |-> ins, outs |-> [i \in 1..Len(outs) |-> Val[outs[i]]], size |-> size, cbLen |-> cbLen, res |-> res, bulk |-> bulk,
+                  bulkIn |-> bulkIn, bulkPos |-> bulkPos])
 ====
